@@ -3,6 +3,13 @@ EXTENDS Cli, Json
 CONSTANTS MaxK, Emit
 VARIABLES script, more
 
+FormCases == [cmd : Commands, form : Forms, known : BOOLEAN]
+FormsOk == \A c \in FormCases : OutIffSuccess(c.cmd, c.form, c.known)
+CmdSeq == <<"info", "help", "call">>
+FormSeq == <<"direct", "resolver", "activate", "bridge">>
+FormCaseAt(k) == [cmd |-> CmdSeq[((k - 1) % 3) + 1], form |-> FormSeq[(((k - 1) \div 3) % 4) + 1], known |-> (k <= 12)]
+FormList == [k \in 1..24 |-> [c |-> FormCaseAt(k), obs |-> CmdObserve(FormCaseAt(k).cmd, FormCaseAt(k).form, FormCaseAt(k).known)]]
+
 Cont == R(TRUE, "", TRUE)
 Finals == {R(FALSE, "", TRUE), R(FALSE, "", FALSE), R(FALSE, "std", TRUE), R(FALSE, "custom", TRUE), R(FALSE, "custom", FALSE),
            R(TRUE, "custom", TRUE)}
@@ -18,4 +25,5 @@ InvExit == ExitZeroIffAllGood(script, more)
 InvOrder == StdoutInOrder(script, more)
 InvAll == MorePrintsAll(script)
 EmitCase == Emit => PrintT(<<"REPLAY", ToJson([script |-> script, more |-> more, obs |-> Observe(script, more)])>>)
+EmitForms == (Emit /\ script = <<>> /\ ~more) => PrintT(<<"REPLAY", ToJson([forms |-> FormList])>>)
 =============================================================================
